@@ -1017,9 +1017,10 @@ class C12(Base):
 
 C12_NAMES = ["C", "D", "E", "F", "G", "A", "B", "C#", "Eb", "F#", "Ab", "Bb", "B#", "Cb", "E#", "Fb", "C##", "Dbb"]
 C12_PLAIN = ["C", "D", "E", "F", "G", "A", "B", "C#", "Eb", "F#", "Ab", "Bb"]
-CHORD_SH = ["", "m", "M7", "m7", "7", "dim", "aug", "sus4", "6", "9", "m9", "11", "13", "dim7", "m7b5", "mM7", "7b9", "7#9", "hendrix", "6/9", "add9", "M9", "m6", "7b5", "sus2", "M13", "m11", "xyz", "7#11"]
-INT_SH = ["1", "b2", "2", "#2", "b3", "3", "4", "#4", "b5", "5", "#5", "b6", "6", "bb7", "b7", "7", "bb3", "#1", "bb6", "#6"]
-NUMS = ["I", "ii", "iii", "IV", "V", "vi", "vii", "V7", "IM7", "iim7", "bII", "#IV", "VIIdim7", "VIII", "x", "Idom7", "IVm"]
+CHORD_SH = ["", "+", "11", "13", "5", "6", "6/7", "6/9", "67", "69", "7", "7#11", "7#5", "7#9", "7+", "7b12", "7b5", "7b9", "9", "M", "M13", "M6", "M7", "M7+", "M7+5", "M9", "aug", "dim", "dim7", "dom7", "hendrix", "m", "m/M7", "m11", "m13", "m6", "m7", "m7+", "m7b5", "m9", "mM7", "sus", "sus2", "sus4", "sus47", "sus4b9", "susb9", "xyz", "add9", "/G", "m7/E"]
+C12_ROOTS = ["C", "D", "E", "F", "G", "A", "B", "C#", "Eb", "F#", "Ab", "Bb", "Db", "G#"]
+INT_SH = [("#" * a if a > 0 else "b" * (-a)) + str(d) for d in range(1, 8) for a in range(-2, 3) if 0 <= [0, 2, 4, 5, 7, 9, 11][d - 1] + a <= 11]
+NUMS = ["I", "ii", "iii", "IV", "V", "vi", "vii", "II", "III", "VI", "VII", "I7", "ii7", "iii7", "IV7", "V7", "vi7", "vii7", "IM7", "iim7", "bII", "#IV", "bVII7", "VIIdim7", "VIII", "x", "Idom7", "IVm", "Vsus4", "vidim", "IIIaug"]
 
 
 def gen_item(rng, plain=False):
@@ -1048,11 +1049,11 @@ def gen_c12(rng, tier):
         if (mix == "shorthand" and r < 0.6) or (mix == "all" and r < 0.12):
             k = rng.choice(["chord", "chord", "interval", "progression"])
             if k == "chord":
-                ops.append({"op": "shorthand", "nc": i, "kind": k, "sh": rng.choice(C12_PLAIN) + rng.choice(CHORD_SH)})
+                ops.append({"op": "shorthand", "nc": i, "kind": k, "sh": rng.choice(C12_ROOTS) + rng.choice(CHORD_SH)})
             elif k == "interval":
                 ops.append({"op": "shorthand", "nc": i, "kind": k, "start": rng.choice(C12_PLAIN), "sh": rng.choice(INT_SH), "up": rng.random() < 0.6})
             else:
-                ops.append({"op": "shorthand", "nc": i, "kind": k, "sh": rng.choice(NUMS), "key": rng.choice(["C", "G", "Eb", "a", "f#", "Bb"])})
+                ops.append({"op": "shorthand", "nc": i, "kind": k, "sh": rng.choice(NUMS), "key": rng.choice(world.ALL_KEYS)})
         elif (mix == "removes" and r < 0.5) or (mix == "all" and r < 0.35):
             via = rng.choice(["remove_note", "remove_note", "remove_notes", "minus"])
             items = [gen_item(rng, plain) for _ in range(1 if via == "remove_note" else rng.randrange(1, 3))]
